@@ -17,7 +17,7 @@ RULE = (
     'thorough: all 230) with a random compatible lattice; 1-3 sites per group, uniform or within 0.03 of a cell '
     'face (symmetry images fall outside [0,1)); 100-1500 input positions (uniform + clustered around symmetry '
     'images of the site); radius 0.2-0.45 x the smallest perpendicular width; SpaceGroup and spglib '
-    'SpacegroupOperations; analyze_positions and analyze_trajectory with integer supercells up to 3x2x2.  Oracle: '
+    'SpacegroupOperations; analyze_positions and analyze_trajectory with integer supercells up to 3x2x2, the trajectory handed over in position representation, left in displacement representation by an earlier query, or built from displacements + base positions.  Oracle: '
     'per operation, image-enumeration distances from op(site) to every position, inverse operation applied to the '
     'nearest image.  Non-trivial = at least one collected point whose symmetry image of the site lies outside '
     '[0,1) and at least 5 points collected; distinct = SHA-1 of (group, lattice, site, positions).'
@@ -228,6 +228,17 @@ def run_unit(unit, rng, ctx):
         traj = gen.make_trajectory(np.array(sc)[:, None] * m, gen.species_objects(['Li'] * N), tp)
         sc_arg = None if sc == (1, 1, 1) and rng.integers(2) else sc
         traj_before = snap.traj_content(traj)
+        hist_t = int(rng.integers(3))
+        if hist_t == 1:
+            # history on the trajectory: a displacement-based query left it in displacement representation
+            _ = traj.mean_squared_displacement() if rng.integers(2) else traj.displacements
+            ctx.count('trajectory_in_displacement_representation', bool(traj.coords_are_displacement))
+        elif hist_t == 2 and T >= 2:
+            # handed over as displacements + base positions from the start
+            dd = np.diff(tp, axis=0, prepend=tp[:1])
+            traj = gen.make_trajectory(np.array(sc)[:, None] * m, gen.species_objects(['Li'] * N), dd - np.round(dd), coords_are_displacement=True, base_positions=tp[0].copy())
+            traj_before = snap.traj_content(traj)
+            ctx.count('trajectory_in_displacement_representation', bool(traj.coords_are_displacement))
         if unit['r'] % 2 == 0 and rng.integers(2):
             # history: the same trajectory object was analysed before (e.g. analyse -> optimise sites -> analyse)
             _ = analyzer.analyze_trajectory(traj, supercell=sc_arg, radius=float(radius * rng.uniform(0.5, 1.0)))
